@@ -3,7 +3,7 @@
 import json
 
 import stages
-from stages import calls, events_trace, mc, product, tla_set
+from stages import calls, events_trace, mc, product, streams, tla_set
 from vlib import log
 
 ALLK = ["std", "lf", "ll"]
@@ -92,6 +92,37 @@ def c04(ck, thorough):
     calls(ck, "c04_kinds", "kinds", scale=6 if thorough else 1, mks=ALLK, an="both", flav="all")
 
 
+def stream_consts(big, faults):
+    return {"Sigma": tla_set([1, 2]), "MaxPats": 2, "MaxPatLen": 3 if big else 2,
+            "MaxStream": 6 if big else 5, "CIs": tla_set([False]),
+            "CapExtra": tla_set([1, 2, 3, 6]), "MaxFaults": 1 if faults else 0}
+
+
+STREAM_INV = ["ChunkConcat", "MatchPrefix", "Complete", "Indices", "NoFalseEof",
+              "EofOnlyWhenReaderSaysSo", "FailedIsPrefix"]
+
+
+def c07(ck, thorough):
+    """stream search = in-memory search for every read schedule and capacity"""
+    mc(ck, "ACStream", "c07_stream", stream_consts(thorough, False), STREAM_INV)
+    streams(ck, "c07_enum", "enum", maxstream=5 if thorough else 4, sizes="1,2,3")
+    streams(ck, "c07_rand", "rand", scale=12 if thorough else 2)
+
+
+def c08(ck, thorough):
+    """stream replacement reproduces the stream outside matches"""
+    mc(ck, "ACStream", "c08_stream", stream_consts(thorough, False), STREAM_INV)
+    streams(ck, "c08_enum", "enum", maxstream=5 if thorough else 4, sizes="1,2,4")
+    streams(ck, "c08_rand", "rand", scale=12 if thorough else 2)
+
+
+def c18(ck, thorough):
+    """I/O failures surface as errors and never corrupt what was produced"""
+    mc(ck, "ACStream", "c18_stream", stream_consts(thorough, True), STREAM_INV)
+    streams(ck, "c18_enum", "enum", faults=True, maxstream=4 if thorough else 3, sizes="1,3")
+    streams(ck, "c18_rand", "rand", faults=True, scale=12 if thorough else 2)
+
+
 def c09(ck, thorough):
     """anchored searches"""
     mc(ck, "ACSearch", "c09_search", search_consts(ALLK, [True], [False, True], [False], True),
@@ -141,10 +172,13 @@ CHECKS = {
     "C02": (c02, "model_checking"),
     "C03": (c03, "model_checking"),
     "C04": (c04, "model_checking"),
+    "C07": (c07, "model_checking"),
+    "C08": (c08, "model_checking"),
     "C09": (c09, "model_checking"),
     "C13": (c13, "model_checking"),
     "C14": (c14, "model_checking"),
     "C16": (c16, "model_checking"),
+    "C18": (c18, "model_checking"),
 }
 
 
